@@ -1,5 +1,5 @@
 """Generic nets, instantiated per property on the functions that property
-depends on (rule ids Cxx.G1 .. Cxx.G5).
+depends on (rule ids Cxx.G1 .. Cxx.G6).
 
 The rules of cXX.py decide clauses somebody wrote down for one function.  The
 adversarial rounds (DESIGN 8) showed a second population of breaking changes
@@ -23,6 +23,7 @@ consumes.
   G3  stale loop values           (c20.stale_loop_reads) -- frozen exceptions
   G4  row integrity of tables     (rules/_rowtear.py)
   G5  memo tables in loops        -- the key determines the stored value
+  G6  element decides for all     -- fixed element of an iterated collection in a guard
 """
 import ast
 import json
@@ -645,6 +646,7 @@ def run(ctx, prop):
     g3(ctx, prop, rel, prop + '.G3')
     g4(ctx, prop, rel, prop + '.G4')
     g5(ctx, prop, rel, prop + '.G5')
+    g6(ctx, prop, rel, prop + '.G6')
     ctx.decided.append(
         'G1-G4 generic nets over the functions this property depends on '
         '(%d, closure of %d entry functions under resolved callees): no '
@@ -652,7 +654,8 @@ def run(ctx, prop):
         'modification of a caller-owned argument outside the frozen effect '
         'table; no value left over from a finished loop read in place of the '
         'collection; no column-wise sort of a record table; every memo table '
-        'filled inside a loop is keyed by everything its values depend on'
+        'filled inside a loop is keyed by everything its values depend on; '
+        'no decision about a collection is taken from one fixed element'
         % (len(rel), len(seeds)))
 
 
@@ -908,3 +911,135 @@ def g5(ctx, prop, rel, rule):
     ctx.ok(rule, 'dassh', None, '%d functions scanned, %d memo tables filled '
            'inside loops; synthetic positive/negative examples decided'
            % (n, nm))
+
+
+# ---------------------------------------------------------------------------
+# G6: one element of a collection decides for the collection
+
+ELEM_POSITIVE = """
+def step(self, z):
+    if self.assemblies[0].check_region_update(z):
+        for ai in range(len(self.assemblies)):
+            self.assemblies[ai].update_region(z)
+def fine(self, z):
+    for ai in range(len(self.assemblies)):
+        if self.assemblies[ai].check_region_update(z):
+            self.assemblies[ai].update_region(z)
+    if len(self.assemblies) > 0 and self.flag:
+        return self.assemblies[0]
+"""
+
+# (function, collection): reason -- confirmed by reading
+ELEM_OK = {
+    ('dassh.assembly:Assembly.__init__', 'self.region'):
+        'after sorting: is the FIRST region rodded? (decides the inlet '
+        'region only, which is what it is used for)',
+    ('dassh.orificing:Orificing.run_parametric', 'asm_obj'):
+        'the last element is the assembly appended in this very pass',
+    ('dassh.read_input:DASSH_Input.axial_region_cleanup', 'geodst'):
+        'the first GEODST file is the reference mesh; the loop (from 1) '
+        'checks every other file against it',
+}
+
+
+def _iterated_collections(fn_node):
+    its = {}
+    for lp in walk_no_nested(fn_node):
+        if not isinstance(lp, ast.For):
+            continue
+        it = lp.iter
+        got = []
+        if isinstance(it, ast.Call) and isinstance(it.func, ast.Name) and \
+                it.func.id in ('range', 'enumerate', 'zip', 'reversed'):
+            for a in ast.walk(it):
+                if isinstance(a, ast.Call) and isinstance(a.func, ast.Name) \
+                        and a.func.id == 'len' and a.args:
+                    got.append(src(a.args[0]))
+            if it.func.id in ('enumerate', 'zip', 'reversed'):
+                got += [src(a) for a in it.args
+                        if isinstance(a, (ast.Name, ast.Attribute,
+                                          ast.Subscript))]
+        elif isinstance(it, (ast.Name, ast.Attribute, ast.Subscript)):
+            got.append(src(it))
+        for g_ in got:
+            its.setdefault(g_, []).append(lp)
+    return its
+
+
+def element_decisions(fn_node):
+    """[(test node, collection, subscript)]: an `if`/`while` test that reads
+    a fixed element X[c] of a collection X which the same function iterates
+    over, where the loop over X lies inside the guarded statement or the
+    guarded statement inside the loop."""
+    its = _iterated_collections(fn_node)
+    if not its:
+        return []
+    single = {}
+    for st in walk_no_nested(fn_node):
+        if isinstance(st, ast.Assign) and len(st.targets) == 1 and \
+                isinstance(st.targets[0], ast.Name):
+            single.setdefault(st.targets[0].id, []).append(st.value)
+    hits = []
+    for st in walk_no_nested(fn_node):
+        if not isinstance(st, (ast.If, ast.While)):
+            continue
+        exprs = [st.test]
+        for nme in [x for x in ast.walk(st.test) if isinstance(x, ast.Name)]:
+            if len(single.get(nme.id, [])) == 1:
+                exprs.append(single[nme.id][0])
+        for e in exprs:
+            for x in ast.walk(e):
+                if not (isinstance(x, ast.Subscript)
+                        and src(x.value) in its):
+                    continue
+                sl = x.slice
+                fixed = isinstance(sl, ast.Constant) and isinstance(
+                    sl.value, int) or (
+                        isinstance(sl, ast.UnaryOp)
+                        and isinstance(sl.op, ast.USub)
+                        and isinstance(sl.operand, ast.Constant))
+                if not fixed:
+                    continue
+                coll = src(x.value)
+                loops = its[coll]
+                related = False
+                for lp in loops:
+                    # loop inside the guarded statement
+                    if any(n_ is lp for n_ in ast.walk(st)):
+                        related = True
+                    # guarded statement inside the loop
+                    if any(n_ is st for n_ in ast.walk(lp)):
+                        related = True
+                if related:
+                    hits.append((st, coll, x))
+    return hits
+
+
+def g6(ctx, prop, rel, rule):
+    n = 0
+    for fi in ctx.repo.all_funcs():
+        if fi.mod.name.startswith('dassh.py4c'):
+            continue
+        n += 1
+        done = set()
+        for st, coll, x in element_decisions(fi.node):
+            if (fi.full, coll) in ELEM_OK or (id(st), coll) in done:
+                continue
+            done.add((id(st), coll))
+            msg = ('the decision `%s` reads the fixed element `%s` of `%s`, '
+                   'a collection this function goes through element by '
+                   'element in the statement it guards: one member decides '
+                   'for all of them'
+                   % (' '.join(src(st.test).split())[:70], src(x), coll))
+            if fi.full in rel:
+                ctx.violation(rule, fi, st, msg,
+                              key='%s | fixed element %s decides'
+                              % (fi.full, src(x)))
+    pm = Module('dassh._positive', '<positive>', 'dassh/_positive.py',
+                ELEM_POSITIVE)
+    if len(element_decisions(pm.funcs['step'].node)) != 1 or \
+            element_decisions(pm.funcs['fine'].node):
+        raise AnalysisError('%s positive example not decided' % rule)
+    ctx.ok(rule, 'dassh', None, '%d functions scanned; %d frozen exceptions; '
+           'synthetic positive/negative examples decided'
+           % (n, len(ELEM_OK)))
